@@ -152,6 +152,12 @@ def handleC17 (toks : List String) : Option String :=
       | [ov] => do let ov ← overflow? ov
                    some ((do let p ← p; yearMonthFromPartial p ov : Out IsoDate).render IsoDate.render)
       | _ => none
+    else if op == "md_fromp" then do
+      let p ← partialDate? (rest.take 6)
+      match rest.drop 6 with
+      | [ov] => do let ov ← overflow? ov
+                   some ((do let p ← p; monthDayFromPartial p ov : Out IsoDate).render IsoDate.render)
+      | _ => none
     else if op == "ym_with" then do
       let r ← ym? (rest.take 3); let p ← partialDate? ((rest.drop 3).take 6)
       match rest.drop 9 with
